@@ -345,6 +345,8 @@ def loops_to_comps(body: list[ast.stmt]) -> list[ast.stmt]:
                 acc, kind = tgt, "dict"
             elif isinstance(val, ast.Call) and u(val.func) == "set" and not val.args:
                 acc, kind = tgt, "set"
+            elif isinstance(val, ast.Call) and u(val.func).split(".")[-1] == "Counter" and not val.args and not val.keywords:
+                acc, kind = tgt, "counter"
         if acc and i + 1 < len(body) and isinstance(body[i + 1], ast.For) and not body[i + 1].orelse:
             loop = body[i + 1]
             mapping: dict[str, ast.expr] = {}
@@ -377,6 +379,10 @@ def loops_to_comps(body: list[ast.stmt]) -> list[ast.stmt]:
                             and isinstance(inner.value.func, ast.Attribute) and inner.value.func.attr == ("append" if kind == "list" else "add") \
                             and isinstance(inner.value.func.value, ast.Name) and inner.value.func.value.id == acc and len(inner.value.args) == 1:
                         elt = _Subst(mapping).visit(copy.deepcopy(inner.value.args[0]))
+                    elif kind == "counter" and isinstance(inner, ast.AugAssign) and isinstance(inner.op, ast.Add) and isinstance(inner.value, ast.Constant) \
+                            and inner.value.value == 1 and isinstance(inner.target, ast.Subscript) and isinstance(inner.target.value, ast.Name) \
+                            and inner.target.value.id == acc:
+                        elt = _Subst(mapping).visit(copy.deepcopy(inner.target.slice))
                     elif kind == "dict" and isinstance(inner, ast.Assign) and len(inner.targets) == 1 and isinstance(inner.targets[0], ast.Subscript) \
                             and isinstance(inner.targets[0].value, ast.Name) and inner.targets[0].value.id == acc:
                         elt = (_Subst(mapping).visit(copy.deepcopy(inner.targets[0].slice)), _Subst(mapping).visit(copy.deepcopy(inner.value)))
@@ -391,7 +397,9 @@ def loops_to_comps(body: list[ast.stmt]) -> list[ast.stmt]:
                     ok = False
             if ok and elt is not None:
                 gen = [ast.comprehension(target=loop.target, iter=loop.iter, ifs=[cond] if cond is not None else [], is_async=0)]
-                if kind == "list":
+                if kind == "counter":
+                    comp = ast.Call(func=copy.deepcopy(val.func), args=[ast.GeneratorExp(elt=elt, generators=gen)], keywords=[])
+                elif kind == "list":
                     comp = ast.ListComp(elt=elt, generators=gen)
                 elif kind == "set":
                     comp = ast.SetComp(elt=elt, generators=gen)
@@ -412,8 +420,10 @@ def normalise_loops(stmts: list[ast.stmt]) -> list[ast.stmt]:
     stmts = [copy.deepcopy(s) for s in stmts]
 
     def rec(block):
-        block = loops_to_comps(block)
+        # inner blocks first: an inner accumulate loop becomes a comprehension before the outer loop is looked at
         for s in block:
+            if isinstance(s, (ast.FunctionDef, ast.AsyncFunctionDef, ast.ClassDef)):
+                continue
             for fld in ("body", "orelse", "finalbody"):
                 b = getattr(s, fld, None)
                 if isinstance(b, list) and b and isinstance(b[0], ast.stmt):
@@ -424,7 +434,7 @@ def normalise_loops(stmts: list[ast.stmt]) -> list[ast.stmt]:
             if isinstance(s, ast.Try):
                 for h in s.handlers:
                     h.body = rec(h.body)
-        return block
+        return loops_to_comps(block)
     return rec(stmts)
 
 
